@@ -2220,7 +2220,13 @@ class C19(Prop):
             "one key and ONE nonce with message x AAD lengths swept (thorough: all 0..130 x 0..40) with nothing in between, Noise form with one counter; "
             "(key, nonce) pairs alternating and returning; Noise counters stuck / going back; HMAC key lengths 0..140 (all); HKDF output lengths at "
             "every multiple of 32 +-1 up to 8160 and 8128..8160; SHA-256 lengths 0..300: every call must return the RFC value of its own arguments; "
-            "non-trivial = all")
+            "structured families (each call alone against the RFC value, a sample also through the Gallina specifications): OPEN ACCEPTS EXACTLY WHAT WAS SEALED: for sealed "
+            "(key, nonce/counter, AAD empty and non-empty, plaintext) the exact opening and openings with a related AAD (empty <-> non-empty, prefix, suffix, extension, "
+            "zero padding to the Poly1305 block, doubled, zeroed, reversed), the AAD/ciphertext boundary moved, ciphertext truncated / extended / tag only, related nonces, "
+            "counters (+-1, bit 32, bit 63, byte order) and keys, IETF and Noise form crossed; HKDF GRID: info empty / 1 byte / longer x lengths 32, 64, 96 and neighbours "
+            "x (salt, ikm) different / exchanged / equal / of other lengths / either or both empty; X25519 STRUCTURED u: 9 + x*2^(8i) for every byte i, 9 + x*2^248 "
+            "for several x (thorough: all 1..127), 9 + 2^k, small u alone and with a high byte, one non-zero byte at each position, values next to p and 2^255, "
+            "each also with bit 255 set; non-trivial = all")
     assumptions = ["orion is not modelled: its functions are compared with the RFC specifications, not proved equal",
                    "X25519 commutativity and AEAD unforgeability are not proved"]
     LOW_ORDER = ["00" * 32, "01" + "00" * 31,
@@ -2486,12 +2492,148 @@ class C19(Prop):
             fresh = [Case(c.op, **dict(c.a)) for c in sample]
             self.run_cases(ctx, fresh, model=True)
 
+    # ---------------------------------------------------------------- structured families (every call alone against the RFC value)
+    def c19_r7_gen_structured(self, ctx):
+        """(family, Case) list.  Three families whose members are RELATED to one another rather than random:
+        open-exact: for sealed (key, nonce, aad, plaintext) every opening whose key / nonce / AAD / ciphertext is related to but
+        different from what was sealed (AAD empty <-> non-empty, prefix, suffix, extension, zero padding to the Poly1305 block,
+        AAD/ciphertext boundary moved, nonce and counter neighbours, truncated / extended ciphertext) next to the exact opening;
+        hkdf-grid: info empty / non-empty x output lengths around 1, 2, 3, 4 hash blocks x salt / ikm different, equal, exchanged, empty;
+        x25519-structured-u: u = 9 + x*2^k, small u with a high byte, one non-zero byte at every position, values next to 9, p and
+        2^255, each also with bit 255 set, under random and structured scalars."""
+        rng = ctx.rng
+        full = ctx.thorough()
+        out = []
+        # ---- AEAD: open accepts exactly what seal produced
+        shapes = [(0, 0), (0, 1), (0, 16), (0, 65), (1, 0), (1, 17), (12, 64), (16, 16), (17, 1), (33, 130)]
+        if not full:
+            shapes = shapes[:4] + rng.sample(shapes[4:], 3)
+        for (al, pl) in shapes:
+            key, nonce, aad, pt = ctx.rbytes(32), ctx.rbytes(12), ctx.rbytes(al), ctx.rbytes(pl)
+            cnt = rng.choice([0, 1, 255, 2 ** 32 - 1, 2 ** 32, rng.getrandbits(63)])
+            ct = c19_seal(key, nonce, aad, pt)
+            nct = c19_seal(key, c19_noise_nonce(cnt), aad, pt)
+            fam = "open-exact/sealed-aad-%s" % ("empty" if not aad else "nonempty")
+            out.append((fam + "/exact", Case("open", key=key, nonce=nonce, ad=aad, x=ct)))
+            out.append((fam + "/exact", Case("nopen", key=key, n=cnt, ad=aad, x=nct)))
+            if not aad:
+                aads = [b"\x00", bytes(16), bytes(rng.randrange(2, 40)), ctx.rbytes(1), ctx.rbytes(16), ctx.rbytes(rng.randrange(2, 41)), nonce, key, ct[:16], pt[:1] or b"a"]
+            else:
+                aads = [b"", aad[:-1], aad[1:], aad + b"\x00", aad + bytes((16 - len(aad) % 16) % 16 or 16), aad + ctx.rbytes(1), aad * 2,
+                        aad.rstrip(b"\x00") if aad.rstrip(b"\x00") != aad else aad[:len(aad) // 2], bytes(len(aad)), aad[::-1] if aad[::-1] != aad else aad + aad]
+            for a2 in aads:
+                if a2 == aad:
+                    continue
+                out.append((fam + "/other-aad", Case("open", key=key, nonce=nonce, ad=a2, x=ct)))
+                out.append((fam + "/other-aad", Case("nopen", key=key, n=cnt, ad=a2, x=nct)))
+            # the AAD / ciphertext boundary moved (both directions), ciphertext truncated / extended / tag only
+            for (a2, x2) in ((aad + ct[:1], ct[1:]), (aad[:-1], aad[-1:] + ct), (aad, ct[:-1]), (aad, ct + b"\x00"), (aad, ct[-16:]), (aad, ct[1:]),
+                             (aad, b"\x00" + ct), (ct[:-16], aad + ct[-16:])):
+                if (a2, x2) != (aad, ct):
+                    out.append((fam + "/boundary-or-length", Case("open", key=key, nonce=nonce, ad=a2, x=x2)))
+            # related nonces / counters / keys
+            for n2 in (bytes(12), nonce[::-1], nonce[1:] + nonce[:1], nonce[:4] + bytes(8), bytes(4) + nonce[4:], flip(nonce, rng.randrange(96))):
+                if n2 != nonce:
+                    out.append((fam + "/other-nonce", Case("open", key=key, nonce=n2, ad=aad, x=ct)))
+            for c2 in (cnt + 1, max(0, cnt - 1), cnt ^ (1 << 32), cnt ^ (1 << 63), int.from_bytes(cnt.to_bytes(8, "little"), "big"), 0):
+                if c2 != cnt and 0 <= c2 < 2 ** 64 - 1:
+                    out.append((fam + "/other-counter", Case("nopen", key=key, n=c2, ad=aad, x=nct)))
+            # the Noise form and the IETF form see the same bytes: a Noise ciphertext opens under the nonce 0^4 || LE64(counter) only
+            out.append((fam + "/exact", Case("open", key=key, nonce=c19_noise_nonce(cnt), ad=aad, x=nct)))
+            out.append((fam + "/other-nonce", Case("open", key=key, nonce=cnt.to_bytes(8, "little") + bytes(4), ad=aad, x=nct)) if cnt else
+                       (fam + "/other-key", Case("open", key=bytes(32), nonce=nonce, ad=aad, x=ct)))
+            for k2 in (bytes(32), key[::-1], key[1:] + key[:1], flip(key, rng.randrange(256)), (aad + key)[:32]):
+                if k2 != key:
+                    out.append((fam + "/other-key", Case("open", key=k2, nonce=nonce, ad=aad, x=ct)))
+        # ---- HKDF: info empty / not x lengths around the hash blocks x salt / ikm relations
+        lens = [1, 31, 32, 33, 63, 64, 65, 95, 96, 97, 128] if full else [32, 64, 96] + rng.sample([1, 31, 33, 63, 65, 95, 97, 128], 3)
+        for info in (b"", ctx.rbytes(1), ctx.rbytes(rng.choice([10, 32, 64]))):
+            for n in lens:
+                s32, i32, s_, i_ = ctx.rbytes(32), ctx.rbytes(32), ctx.rbytes(rng.choice([1, 13, 64, 65, 100])), ctx.rbytes(rng.choice([1, 22, 64, 80]))
+                for rel, salt, ikm in (("different", s32, i32), ("exchanged", i32, s32), ("equal", s32, s32), ("different-lengths", s_, i_), ("exchanged-lengths", i_, s_),
+                                       ("salt-empty", b"", i_), ("ikm-empty", s_, b""), ("both-empty", b"", b"")):
+                    out.append(("hkdf-grid/info-%s/len=%d/%s" % ("empty" if not info else "nonempty", n, rel), Case("hkdf", salt=salt, ikm=ikm, info=info, n=n)))
+        # ---- X25519: structured u-coordinates
+        us = []
+        base = b"\x09" + bytes(31)
+
+        def at(i, x, first=9):
+            b = bytearray(32)
+            b[0] = first
+            b[i] = x if i else first
+            return bytes(b)
+        for i in range(1, 32):        # 9 + x * 2^(8i): every byte position, the last one densely
+            us.append(("9+x*2^%d" % (8 * i), at(i, rng.randrange(1, 256 if i < 31 else 128))))
+        for x in (range(1, 128) if full else [1, 2, 0x40, 0x7f] + rng.sample(range(3, 0x7f), 6)):
+            us.append(("9+x*2^248", at(31, x)))
+        for k in ([3, 4, 7, 9, 100, 200, 247, 250, 253, 254] if full else rng.sample([3, 4, 7, 9, 100, 200, 247, 250, 253, 254], 4)):   # not byte aligned
+            us.append(("9+2^%d" % k, (9 + (1 << k)).to_bytes(32, "little")))
+        for s in ([2, 3, 4, 5, 6, 7, 8, 10, 11, 16, 255, 256] if full else [2, 8, 10] + rng.sample([3, 4, 5, 6, 7, 11, 16, 255, 256], 3)):    # small u, alone and with a high byte
+            us.append(("small-u", s.to_bytes(32, "little")))
+            us.append(("small-u+high-byte", (s + (rng.randrange(1, 128) << 248)).to_bytes(32, "little")))
+        for i in (range(32) if full else rng.sample(range(32), 8)):        # exactly one non-zero byte
+            us.append(("single-byte-u", at(i, rng.randrange(2, 128), first=0) if i else bytes([rng.randrange(2, 256)]) + bytes(31)))
+        P = 2 ** 255 - 19
+        for v in (P - 9, P + 9, P - 2, P + 2, 2 ** 255 - 1 - 9, 2 ** 254 + 9, 2 ** 254, 9 << 8, 9 << 248 & (2 ** 255 - 1)):
+            us.append(("next-to-p-or-2^255", (v % 2 ** 255).to_bytes(32, "little")))
+        us.append(("base-point", base))
+        ks = [ctx.rbytes(32), ctx.rbytes(32)] + ([ctx.rbytes(32), ctx.rbytes(32), b"\x09" + bytes(31), bytes(32)] if full else [rng.choice([b"\x09" + bytes(31), bytes(32), b"\xff" * 32])])
+        for fam, u in us:
+            for k in (ks if full else [rng.choice(ks[:2])] + ([ks[2]] if rng.random() < 0.25 else [])):
+                out.append(("x25519-structured-u/" + fam, Case("x25519", k=k, u=u)))
+                out.append(("x25519-structured-u/" + fam + "/bit255-set", Case("x25519", k=k, u=u[:31] + bytes([u[31] | 0x80]))))
+        return out
+
+    def c19_r7_structured(self, ctx):
+        from concurrent.futures import ThreadPoolExecutor
+        fc = self.c19_r7_gen_structured(ctx)
+        cs = [c for _, c in fc]
+        nsh = max(1, min(vlib.NPROC, len(cs) // 50))
+        with ThreadPoolExecutor(max_workers=nsh) as ex:
+            list(ex.map(lambda part: vlib.run_impl(ctx.bin, part), [cs[k::nsh] for k in range(nsh)]))
+        dist = collections.Counter(ctx.distribution)
+        nviol, per_fam, model_sample = 0, collections.Counter(), []
+        for fam, c in fc:
+            top = fam.split("/")[0]
+            dist["structured:" + "/".join(fam.split("/")[:2]) if top != "hkdf-grid" else "structured:" + fam.split("/len=")[0]] += 1
+            ctx.evaluations += 1
+            ctx.distinct_nontrivial += 1
+            ref = c19_reference(c)
+            if ref is None:
+                ctx.broken.append({"kind": "machinery", "what": "C19 structured case without a reference value: %s %s" % (fam, c.op)})
+                continue
+            ctx.oracle_checks += 1
+            dist["structured-expected:%s/%s" % (top, ref[0])] += 1
+            v = c19_verdict(c, c.result)
+            if v is None:
+                if per_fam[top + c.op] < (6 if ctx.thorough() else 1) and ctx.rng.random() < 0.1:
+                    per_fam[top + c.op] += 1
+                    model_sample.append(c)
+                continue
+            nviol += 1
+            per_fam["violations/" + top] += 1
+            if per_fam["violations/" + top] > 5:        # a few failing inputs per family
+                dist["further-structured-violations-not-written-as-replays"] += 1
+                continue
+            exp = v[0]
+            if ref[0] == "reject":
+                exp = ("%s: the key / nonce / associated data / ciphertext of this call differ from what was sealed (family %s): RFC 8439 2.8 recomputes the tag over "
+                       "THIS call's associated data and ciphertext, it does not match, so the call returns an error and no plaintext" % (C19_WHAT[c.op], fam))
+            ctx.violations.append({"input": c.full(), "expected": "[%s] %s" % (fam, exp), "observed": v[1], "finding_key": None})
+        ctx.distribution = dict(dist)
+        if len(ctx.samples) < 9:
+            ctx.samples.append({"gen": "structured", "calls": len(fc), "families": sorted(set(f.split("/")[0] for f, _ in fc))})
+        # a few members of each family through the Gallina specifications too
+        if model_sample:
+            self.run_cases(ctx, [Case(c.op, **dict(c.a)) for c in model_sample], model=True)
+
     def explore(self, ctx):
         if not self.c19_selftest(ctx):
             return
         super().explore(ctx)
         singles, ctx.violations = ctx.violations, []
         self.c19_sequences(ctx)
+        self.c19_r7_structured(ctx)
         # failing inputs that carry the calls made before them come first; a single-call failing input is re-run alone in a fresh
         # process, and said to depend on the process's history when it does not fail there
         if len(singles) > 25:
